@@ -284,6 +284,42 @@ pub fn check_unstable_store(tape: &[u16], rc: &mut RCase) -> Result<(), Failure>
     Ok(())
 }
 
+/// `resolve_tx` against wallets with more UTxOs than the selection window has slots (51..170 at one address, all of
+/// them matching every criterion of a query): the arithmetic around the window must hold there too.
+pub fn check_crowded_wallet(tape: &[u16], rc: &mut RCase) -> Result<(), Failure> {
+    use crate::rgen::{self, ROpts};
+    let mut t = Tape::new(tape);
+    let opts = ROpts { allow_refs: t.flag(), allow_extras: true, ..ROpts::default() };
+    let mut sc = rgen::generate(&mut t, &opts);
+    let extra = 48 + t.pick(120);
+    let base = sc.store.iter().map(|u| u.id).max().map(|m| m + 1).unwrap_or(0);
+    for k in 0..extra {
+        let party = if t.chance(5, 6) { sc.ins[0].party } else { t.pick(sc.n_parties.max(1)) };
+        sc.store.push(rgen::SUtxo { id: base + k, party, lovelace: 1_000_000 + t.pick(60_000) as i128 * 1_000, token: if t.chance(1, 3) { 1 + t.pick(100) as i128 } else { 0 } });
+    }
+    let src = sc.source();
+    let rendered = || sc.to_json();
+    let tir = match pipeline::front(&src, &sc.tx_name) {
+        Ok(t) => t,
+        Err(e) => return Err(Failure::new("harness:template_rejected", e.describe(), rendered())),
+    };
+    let store = MemStore::new(sc.utxos());
+    let mut compiler = pipeline::compiler(&Cfg::default());
+    let res = guard(|| block_on(tx3_resolver::resolve_tx(AnyTir::V1Beta0(tir), &sc.args(), &mut compiler, &store, 5)));
+    let key = hash64(&format!("{}{:?}", src, sc.store.len()));
+    match res {
+        Err(p) => {
+            let sig = format!("panic:{}", p.sig());
+            if !rc.tolerated(&sig) {
+                return Err(Failure::new(sig, format!("resolve_tx against a wallet of {} UTxOs: {} ({}:{})", sc.store.len(), p.message, p.file, p.line), rendered()));
+            }
+        }
+        Ok(r) => rc.label(if r.is_ok() { "crowded_wallet:ok" } else { "crowded_wallet:err" }),
+    }
+    rc.record(key, true, rendered);
+    Ok(())
+}
+
 pub fn run(tier: Tier, seed: u64) -> Report {
     let mut r = Report::new("C14", tier, seed);
     r.rule = "lowered generated templates and random IR trees (well-typed and arbitrary) x boundary-heavy type-correct \
@@ -298,6 +334,7 @@ pub fn run(tier: Tier, seed: u64) -> Report {
     r.explore("lowered_programs", tier.pick(30_000, 800_000), 700, &|t, rc| check_program(t, rc));
     r.explore("ir_trees", tier.pick(60_000, 2_000_000), 600, &|t, rc| check_tree(t, rc));
     r.explore("store_with_changing_answers", tier.pick(4_000, 150_000), 300, &|t, rc| check_unstable_store(t, rc));
+    r.explore("wallets_larger_than_the_window", tier.pick(3_000, 100_000), 500, &|t, rc| check_crowded_wallet(t, rc));
     r
 }
 
@@ -306,6 +343,8 @@ pub fn replay(phase: &str, tape: &[u16], seed: u64) -> Report {
     r.strict = true;
     if phase == "ir_trees" {
         r.explore_list(phase, &[tape.to_vec()], &|t, rc| check_tree(t, rc));
+    } else if phase == "wallets_larger_than_the_window" {
+        r.explore_list(phase, &[tape.to_vec()], &|t, rc| check_crowded_wallet(t, rc));
     } else if phase == "store_with_changing_answers" {
         r.explore_list(phase, &[tape.to_vec()], &|t, rc| check_unstable_store(t, rc));
     } else {
